@@ -154,12 +154,12 @@ type c30Tier struct {
 }
 
 type c30Case struct {
-	Layout   string
-	Tiers    []c30Tier
-	Profile  []c30RuleSpec
-	Inbound  bool
-	Chunk    int
-	Sets     int
+	Layout  string
+	Tiers   []c30Tier
+	Profile []c30RuleSpec
+	Inbound bool
+	Chunk   int
+	Sets    int
 }
 
 type c30Gen struct {
@@ -298,8 +298,8 @@ func c30ACLMatches(r *hns.ACLPolicy, local, remote netip.Addr, protoNum, localPo
 type c30Built struct {
 	rules  []*hns.ACLPolicy // Switch rules of the direction under test, sorted by priority (stable)
 	direct []*hns.ACLPolicy // single-tier cases: GetPolicySetRules output for that tier (before flattening / priority rewrite)
-	err   string
-	key   string
+	err    string
+	key    string
 }
 
 func (g *c30Gen) runPipeline(cs c30Case) (b c30Built) {
@@ -466,21 +466,23 @@ func (g *c30Gen) refPacket(cs c30Case, p c30Pkt) *refpol.Packet {
 }
 
 type c30W struct {
-	c      *vk.Ctx
-	g      *c30Gen
-	pkts   []c30Pkt
-	states int64
-	evals  int64
-	undec  int64
-	seen   map[string]bool
-	outc   map[string]bool
+	c        *vk.Ctx
+	g        *c30Gen
+	pkts     []c30Pkt
+	states   int64
+	evals    int64
+	undec    int64
+	multiMis int64
+	seen     map[string]bool
+	outc     map[string]bool
 }
 
 func (w *c30W) flush() {
 	w.c.Add("states", w.states)
 	w.c.Add("transitions", w.evals)
 	w.c.Add("reference_undecided_skipped", w.undec)
-	w.states, w.evals, w.undec = 0, 0, 0
+	w.c.Add("multi_ipset_field_union_mismatches_not_violations", w.multiMis)
+	w.states, w.evals, w.undec, w.multiMis = 0, 0, 0, 0
 	for s := range w.seen {
 		w.c.Nontrivial(s)
 	}
@@ -567,6 +569,14 @@ func (w *c30W) check(cs c30Case) {
 		if got == want {
 			continue
 		}
+		if multi {
+			// Several IP-set ids in one match field: PolicySets unions them where proto.Rule semantics intersect.
+			// Not a violation: Felix's calculation graph never emits such a rule from a validated datastore
+			// (at most one selector set per field; selector+services is rejected by the API) and the union is
+			// pinned by the repo's own TestMultiIpPortChunks.  Counted as evidence only.
+			w.multiMis++
+			continue
+		}
 		tag := "flattening"
 		defaultTierHasPolicies := false
 		for _, t := range cs.Tiers {
@@ -575,8 +585,6 @@ func (w *c30W) check(cs c30Case) {
 			}
 		}
 		switch {
-		case multi:
-			tag = "multiple-ipsets-in-one-field"
 		case (v.Reason == refpol.ByProfileRule || v.Reason == refpol.ByNoProfileMatch) && defaultTierHasPolicies:
 			tag = "profiles-unreachable-after-default-tier"
 		case usesPass:
@@ -591,7 +599,7 @@ func (w *c30W) check(cs c30Case) {
 		}
 		w.c.Violation(fmt.Sprintf("C30:%s:%s:want-%s-got-%s", tag, dir, want, got), map[string]any{
 			"case": w.g.describe(cs), "packet": map[string]any{"remote": p.Remote, "proto": p.Proto, "sport": p.SPort, "dport": p.DPort},
-			"reference": map[string]any{"decision": want, "reason": v.Reason.String(), "tier": v.Tier, "policy": v.Policy, "profile": v.Profile, "rule": v.Rule},
+			"reference":   map[string]any{"decision": want, "reason": v.Reason.String(), "tier": v.Tier, "policy": v.Policy, "profile": v.Profile, "rule": v.Rule},
 			"hns_verdict": got, "hns_deciding_rule": by, "hns_rules": b.rules})
 	}
 	if len(cs.Tiers) > 0 || len(cs.Profile) > 1 {
@@ -697,6 +705,8 @@ func TestVerif_C30(t *testing.T) {
 			"the resulting ACL list is evaluated for 102 packets (6 remote addresses x tcp/udp x 4 dst ports x 2 src ports + icmp). Non-trivial = at least one policy tier or two profile rules.")
 		c.Assume("HNS evaluates the Switch ACL rules of one direction by ascending Priority and the first matching rule decides; Protocol 256 = any; empty address/port fields = any; rules sharing a priority must share the action (asserted).")
 		c.Assume("Reference = engine/refpol (tiers in order, pass -> next tier, tier without match denies unless default action Pass, then profiles). Cases where refpol answers Undecided (pass rule inside a profile) are counted and skipped.")
+		c.Assume("Rules with several IP-set ids in ONE match field (shape remote-setA,B) are outside the violation space: unreachable from a validated datastore and pinned by the repo's TestMultiIpPortChunks; HNS/reference disagreements on them are only counted (multi_ipset_field_union_mismatches_not_violations).")
+		c.Extra("multi_ipset_field_note", "PolicySets.getIPSetAddresses unions several IP-set ids of one field whereas proto.Rule semantics intersect them; classified unreachable (lead decision), counted not reported")
 		c.Assume("The endpointManager is built without host addresses (no host->endpoint allow rule) and with HNS feature flags all on.")
 
 		pkts := c30Packets()
